@@ -75,6 +75,9 @@ def leak_check(v, res, what=""):
     led = res.get("ledger")
     if not led:
         return
+    if led.get("released_behind_wrappers"):
+        # blocks the ledger saw allocated and the sanitizer says are gone: a release path the file layer does not see
+        v.obs["blocks_released_behind_the_wrappers"] = v.obs.get("blocks_released_behind_the_wrappers", 0) + len(led["released_behind_wrappers"])
     if led.get("leak_count"):
         sites = sorted(set("%s/%d" % (l["fn"], l["size"]) for l in led["leaks"]))
         v.fail("leak", "%s: %d allocation(s) (%d bytes) made by the library were never released: %s" % (what, led["leak_count"], led["leak_bytes"], sites[:6]))
